@@ -532,6 +532,154 @@ fn regression(_t: Tier) -> Vec<Case> {
     v
 }
 
+/// what a thread has asked before: one fresh thread puts 150 000 (thorough: 1 500 000) queries, in a
+/// pseudo-random order, to a pool of graphs of different sizes (forests next to cyclic graphs), and
+/// every answer is compared with the own oracle. A search that keeps per-thread scratch space with
+/// visit stamps or generation counters has to stay right when those counters come round.
+fn many_queries_cases(t: Tier) -> Vec<(u64, u64)> {
+    let total = t.pick(150_000u64, 1_500_000);
+    vec![(1, total), (2, total)]
+}
+
+fn check_many_queries(case: &(u64, u64), p: &mut Probe) -> Check {
+    let (seed, total) = (&case.0, case.1);
+    let mut pool: Vec<Mat> = regression(Tier::Quick).into_iter().map(|c| c.h).filter(|m| m.rows > 0 && m.cols > 0).collect();
+    // forests: a path, three stars, isolated edges beside a 6-cycle, a large star forest
+    let mut path = Mat::new(6, 7);
+    for i in 0..6 {
+        path.ones.push((i, i));
+        path.ones.push((i, i + 1));
+    }
+    pool.push(path);
+    let mut stars = Mat::new(3, 12);
+    for j in 0..12 {
+        stars.ones.push((j % 3, j));
+    }
+    pool.push(stars);
+    let mut mixed = Mat::new(9, 9);
+    for i in 0..3 {
+        mixed.ones.push((i, i));
+        mixed.ones.push((i, (i + 1) % 3));
+    }
+    for i in 3..9 {
+        mixed.ones.push((i, i));
+    }
+    pool.push(mixed);
+    let mut wide = Mat::new(40, 40);
+    for j in 0..40 {
+        wide.ones.push((j / 8, j));
+    }
+    pool.push(wide);
+    let seed = *seed;
+    let handle = std::thread::Builder::new().name("c11-many-queries".into()).spawn(move || -> Result<(u64, u64), String> {
+        let built: Vec<(ldpc_toolbox::sparse::SparseMatrix, Vec<Option<usize>>, Option<usize>, usize)> = pool.iter().map(|m| {
+            let g = Graph::from_mat(m);
+            (m.to_sparse(), (0..g.n()).map(|v| g.local_girth(v)).collect(), g.girth(), m.rows)
+        }).collect();
+        let mut sd = splitmix(seed ^ 0xc11);
+        let mut on_forest = 0u64;
+        // scripted part: the number of local searches this thread has made is known exactly
+        let mut count = 0u64;
+        let mut ask = |h: &ldpc_toolbox::sparse::SparseMatrix, node: Node, bound: Option<usize>, want: Option<usize>, count: &mut u64| -> Result<(), String> {
+            *count += 1;
+            let got = std::panic::catch_unwind(std::panic::AssertUnwindSafe(|| match bound {
+                Some(b) => h.girth_at_node_with_max(node, b),
+                None => h.girth_at_node(node),
+            }));
+            let want = match bound {
+                Some(b) => bounded(want, b),
+                None => want,
+            };
+            match got {
+                Err(_) => Err(format!("local girth search number {count} of this thread panicked ({node:?}, bound {bound:?}, {} x {} matrix)", h.num_rows(), h.num_cols())),
+                Ok(g) if g != want => Err(format!("local girth search number {count} of this thread ({node:?}, bound {bound:?}, {} x {} matrix with {:?} ones) returned {g:?}, the own search gives {want:?}", h.num_rows(), h.num_cols(), (0..h.num_rows()).map(|i| h.iter_row(i).count()).sum::<usize>())),
+                Ok(_) => Ok(()),
+            }
+        };
+        let mut tiny = Mat::new(3, 3);
+        tiny.ones.push((0, 0));
+        let tiny = tiny.to_sparse();
+        // a path on rows / columns lo..lo+20 of a 300 x 300 matrix: indices no other query touches
+        let fresh = |lo: usize| {
+            let mut m = Mat::new(300, 300);
+            for i in 0..19 {
+                m.ones.push((lo + i, lo + i));
+                m.ones.push((lo + i, lo + i + 1));
+            }
+            m.to_sparse()
+        };
+        if seed == 1 {
+            // the same list of up to 200 queries, asked again exactly 2^8, 2^16 and 2^16 + 2^8 searches later,
+            // with nothing but searches on a single-edge matrix in between
+            let mut list: Vec<(usize, usize)> = Vec::new();
+            for (gi, b) in built.iter().enumerate() {
+                let n = b.1.len();
+                for t in 0..n.min(9) {
+                    list.push((gi, t * n / n.min(9)));
+                }
+            }
+            list.truncate(200);
+            for start in [0u64, 256, 65_536, 65_536 + 256, 131_072] {
+                while count < start {
+                    ask(&tiny, Node::Col(0), None, None, &mut count)?;
+                }
+                for &(gi, v) in &list {
+                    let (h, locals, _, r) = &built[gi];
+                    let node = if v < *r { Node::Row(v) } else { Node::Col(v - r) };
+                    ask(h, node, if v % 3 == 0 { Some(8) } else { None }, locals[v], &mut count)?;
+                }
+            }
+        } else {
+            // matrices whose lines no earlier search has touched, asked about right where a counter of 8
+            // or 16 bits comes round
+            for (at, lo) in [(255u64, 40usize), (256, 65), (257, 90), (65_535, 115), (65_536, 140), (65_537, 165), (131_072, 190)] {
+                while count + 1 < at {
+                    ask(&tiny, Node::Col(0), None, None, &mut count)?;
+                }
+                let h = fresh(lo);
+                ask(&h, Node::Row(lo + 9), None, None, &mut count)?;
+                let _ = at;
+            }
+        }
+        for q in 0..total {
+            sd = splitmix(sd);
+            let (h, locals, girth, r) = &built[(sd % built.len() as u64) as usize];
+            let v = ((sd >> 16) % locals.len() as u64) as usize;
+            let node = if v < *r { Node::Row(v) } else { Node::Col(v - r) };
+            let want = locals[v];
+            let kind = (sd >> 40) % 16;
+            let res = std::panic::catch_unwind(std::panic::AssertUnwindSafe(|| match kind {
+                0 => (h.girth(), *girth, "girth()".to_string()),
+                1..=5 => {
+                    let b = 4 + 2 * ((sd >> 48) % 6) as usize;
+                    (h.girth_at_node_with_max(node, b), bounded(want, b), format!("girth_at_node_with_max({node:?}, {b})"))
+                }
+                _ => (h.girth_at_node(node), want, format!("girth_at_node({node:?})")),
+            }));
+            match res {
+                Err(_) => return Err(format!("query {q} of this thread panicked ({} x {} matrix)", h.num_rows(), h.num_cols())),
+                Ok((got, want, what)) => {
+                    if got != want {
+                        return Err(format!("query {q} of this thread, {what} on a {} x {} matrix = {got:?}, the own search gives {want:?} (the same query earlier on this thread was answered correctly or never asked)", h.num_rows(), h.num_cols()));
+                    }
+                }
+            }
+            on_forest += u64::from(girth.is_none());
+        }
+        Ok((total, on_forest))
+    }).map_err(|e| Fail::new(INCONCLUSIVE, format!("cannot start a thread: {e}")))?;
+    match handle.join() {
+        Ok(Ok((n, f))) => {
+            p.inner += n;
+            p.metric("queries_on_forests", f as f64);
+            p.nontrivial();
+            Ok(())
+        }
+        Ok(Err(e)) => Err(Fail::new("answer-depends-on-thread-history", e)),
+        Err(_) => Err(Fail::new("panic", "the querying thread panicked".to_string())),
+    }
+}
+
 /// fuzz-target body: a byte tape decoded into a matrix (all roots, all bounds)
 pub fn fuzz_bytes(data: &[u8]) -> Check {
     let (h, _) = mat_from_bytes(data, 10, false);
@@ -549,6 +697,13 @@ pub fn property() -> Property {
                 rule: "fixed: 4-cycle with a pendant path, empty graph, matrices with a dimension of zero (0x0, 3x0, 0x3, 1x0, 0x1), extremal graphs (incidence matrices of the projective planes of order 2, 3, 5: girth 6; the generalised quadrangle GQ(2,2): girth 8; complete bipartite graphs; single cycles of length 4, 6, 16, 22): every root, every bound",
                 cases: regression,
                 check,
+                exhaustive: false,
+            }),
+            Box::new(EnumSub {
+                name: "many-queries-on-one-thread",
+                rule: "two fresh threads, each putting 150 000 (thorough 1 500 000) queries in pseudo-random order (girth_at_node 10/16, girth_at_node_with_max with bounds 4..=14 5/16, girth() 1/16) to a pool of 22 graphs of different sizes (the regression list plus a path, star forests, a 6-cycle beside isolated edges): every answer equals the own oracle's, whatever the thread has asked before (more than 2^16, thorough more than 2^20 queries per thread). Before that, with the number of local searches of the thread known exactly: thread 1 asks a list of up to 200 queries and asks it again 2^8, 2^16, 2^16 + 2^8 and 2^17 searches later, with only searches on a single-edge matrix in between; thread 2 asks about paths on lines that no earlier search touched as its 255th, 256th, 257th, 65 535th, 65 536th, 65 537th and 131 072nd search",
+                cases: many_queries_cases,
+                check: check_many_queries,
                 exhaustive: false,
             }),
             Box::new(Sub {
